@@ -314,6 +314,12 @@ class ArithmeticPulseTemplate(PulseTemplate):
         Returns:
             The evaluation of the scalar operand for all relevant channels
         """
+        if 't' in parameters:
+            # a parameter that merely happens to be called like the time variable (an enclosing loop index or a parameter of
+            # the inner template) is not the time: as in FunctionPulseTemplate.build_waveform it is hidden from the scalar
+            # operand, where 't' always denotes the time
+            parameters = {name: value for name, value in parameters.items() if name != 't'}
+
         def _evaluate(value: ExpressionScalar):
             return value._evaluate_to_time_dependent(parameters)
 
